@@ -758,7 +758,12 @@ func eqnil(t types.Type, x, y value) bool {
 		case goFunc:
 			return false
 		case []value:
+			if _, ok := y.(*oslice); ok {
+				return false
+			}
 			return (x != nil) == (y.([]value) != nil)
+		case *oslice:
+			return false
 		}
 		panic(fmt.Sprintf("eqnil(%s): illegal dynamic type: %T", t, x))
 	}
@@ -877,6 +882,15 @@ func callBuiltin(i *interpreter, caller *frame, fn *ssa.Builtin, args []value) v
 		if len(args) == 1 {
 			return args[0]
 		}
+		if ys, ok := args[1].(*oslice); ok {
+			if x, ok := args[0].([]value); ok {
+				return i.oAppend(x, ys)
+			}
+			args[1] = i.materialize(ys)
+		}
+		if xo, ok := args[0].(*oslice); ok {
+			args[0] = i.materialize(xo)
+		}
 		if s, ok := asSstr(args[1]); ok {
 			// append([]byte, ...string) []byte
 			arg0 := args[0].([]value)
@@ -898,6 +912,12 @@ func callBuiltin(i *interpreter, caller *frame, fn *ssa.Builtin, args []value) v
 		src := args[1]
 		if s, ok := asSstr(src); ok {
 			src = []value(s)
+		}
+		if _, ok := args[0].(*oslice); ok {
+			return i.oCopy(args[0], src)
+		}
+		if _, ok := src.(*oslice); ok {
+			return i.oCopy(args[0], src)
 		}
 		tElt := fn.Type().(*types.Signature).Params().At(0).Type().Underlying().(*types.Slice).Elem()
 		d, sc := args[0].([]value), src.([]value)
@@ -967,6 +987,8 @@ func callBuiltin(i *interpreter, caller *frame, fn *ssa.Builtin, args []value) v
 			return len((*x).(array))
 		case []value:
 			return len(x)
+		case *oslice:
+			return i.olen(x)
 		case *omap:
 			return x.len()
 		case *channel:
@@ -986,6 +1008,8 @@ func callBuiltin(i *interpreter, caller *frame, fn *ssa.Builtin, args []value) v
 			return cap((*x).(array))
 		case []value:
 			return cap(x)
+		case *oslice:
+			return i.ocap(x)
 		case *channel:
 			if x == nil {
 				return 0
